@@ -311,6 +311,12 @@ func (eng *Engine) regSet() {
 	eng.globalAx[setHeap+"_0"] = append(eng.globalAx[setHeap+"_0"], eng.compElemInv[setHeap](setHeap+"_0"))
 }
 
+// regBig registers the ghost heaps of math/big values: pointer -> mathematical value.
+func (eng *Engine) regBig() {
+	eng.regComp(bigIHeap, "(Array Int Int)")
+	eng.regComp(bigFHeap, "(Array Int Real)")
+}
+
 func (eng *Engine) regMap(m *types.Map) {
 	ks, vs := eng.sorts.sortOf(m.Key()), eng.sorts.sortOf(m.Elem())
 	eng.regComp(mapDom(m), "(Array Int (Array "+ks+" Bool))")
